@@ -57,6 +57,7 @@ var (
 	ErrDNSQueryConcurrencyLimitExceeded = errors.New("dns query concurrency limit exceeded")
 	ErrDNSUDPConnPoolExhausted          = errors.New("dns udp conn pool exhausted")
 	ErrDNSTruncated                     = errors.New("dns response truncated")
+	ErrDNSResponseMismatch              = errors.New("dns response does not answer the question asked")
 )
 
 var (
@@ -2112,6 +2113,17 @@ func (c *DnsController) forwardWithDialArg(ctx context.Context, upstream *dns.Up
 				c.logDnsForwardFailure(upstream, dialArg, err)
 				c.reportDnsForwardFailure(dialArg, err)
 			}
+			return nil, err
+		}
+		if !dnsResponseMatchesQuery(data, respMsg) {
+			// The transport matched the reply by ID only; never hand on (or cache)
+			// an answer to a question the client did not ask.
+			err = ErrDNSResponseMismatch
+			entry.consecutiveErrors.Add(1)
+			if c.shouldRetireCachedDnsForwarder(upstream, dialArg, entry, err) {
+				c.retireCachedDnsForwarder(key, entry)
+			}
+			c.logDnsForwardFailure(upstream, dialArg, err)
 			return nil, err
 		}
 		entry.consecutiveErrors.Store(0)
